@@ -176,7 +176,7 @@ def gen_dag_project(rng, nmax=8, spellings=False, shapes=True, defects=None, mul
     if rng.random() < 0.5:
         eps = rng.sample(names, rng.randint(1, n))
     return {"cwd": cwd, "targets": targets, "fs": fs, "endpoints": eps, "planted": planted,
-            "hashing": bool(specflags)}
+            "hashing": bool(specflags), "ctseed": (rng.randint(0, 1 << 30) if rng.random() < 0.5 else None)}
 
 
 def rand_path_string(rng):
